@@ -104,10 +104,11 @@ theorem c06_never_discarded (c : Cfg) (es : List Ev) (s : St) (h : runEv c {} es
 
 /-- the ghost fields of the final state are functions of the log alone: `finished` = the ids of the `finished` events
     (and of the `yielded` events when items are not futures), in order; `beforeClose` = the ids accepted before the
-    first `closeCalled`; `closing` = the log contains `closeCalled` -/
+    first `closeCalled` / `cancelAll` / `closeExpired`; "a close was called or an end signal given" = the log contains one of
+    these -/
 theorem c06_ghost_fields (c : Cfg) (es : List Ev) (s : St) (h : runEv c {} es = some s) :
     s.finished = processedIds c es ∧ s.beforeClose = acceptedBeforeClose es ∧
-    s.closing = es.contains .closeCalled := by
+    (s.closing || s.signalled) = es.any isSignal := by
   obtain ⟨h1, h2, h3, -⟩ := ghost_run h
   exact ⟨by simpa using h1, by simpa using h2, by simpa using h3⟩
 
@@ -125,7 +126,7 @@ theorem c06_close_sequential_log (c : Cfg) (hc : c.limit ≤ 1 ∨ c.futures = f
     obtain ⟨s2, h5, h6⟩ := runEv_cons h4
     cases h6
     rcases stepEv_cases h5 with ⟨i, h, -⟩ | ⟨i, rest, h, -⟩ | ⟨i, rest, h, -⟩ | ⟨i, h, -⟩ | ⟨h, -⟩ |
-        ⟨-, -, -, -, rfl⟩ | ⟨h, -⟩
+        ⟨-, -, -, -, rfl⟩ | ⟨h, -⟩ | ⟨h, -⟩ | ⟨h, -⟩
     all_goals first | cases h | skip
     exact ⟨rfl, rfl, rfl⟩
   have := (c06_close_sequential c hc _ s1 h1).2 hcl.1
@@ -155,6 +156,28 @@ example : (acceptedIds [.accepted 1, .accepted 2, .yielded 1, .closeCalled, .acc
 -- `c06_close_sequential_log` is not vacuous
 example : accepts { futures := true, limit := 1 }
     ([.accepted 1, .yielded 1, .closeCalled, .finished 1] ++ .closeReturned :: [.callback]) = true := by decide
+
+/-! ### the end signal given before the graceful close: `cancel_all_streams()`, a bounded close that expired, several closes -/
+
+-- after `cancel_all_streams()` with an item in flight, an unbounded close may NOT return before that item finished …
+example : accepts { futures := true, limit := 1 }
+    [.accepted 1, .accepted 2, .yielded 1, .cancelAll, .closeCalled, .closeReturned] = false := by decide
+-- … it returns after the buffered events were yielded and finished
+example : (runEv { futures := true, limit := 1 } {}
+    [.accepted 1, .accepted 2, .yielded 1, .cancelAll, .closeCalled, .finished 1, .yielded 2, .finished 2, .closeReturned]).map
+    (fun s => (s.closed, closeOk s, s.beforeClose, s.finished)) = some (true, true, [1, 2], [1, 2]) := by decide
+-- a bounded close that expired (it has cancelled the streams by then) followed by an unbounded one: same
+example : accepts { futures := true, limit := 1 }
+    [.accepted 1, .yielded 1, .closeCalled, .closeExpired, .closeCalled, .closeReturned] = false := by decide
+example : accepts { futures := true, limit := 1 }
+    [.accepted 1, .yielded 1, .closeCalled, .closeExpired, .closeCalled, .finished 1, .closeReturned, .callback] = true := by decide
+-- two closes outstanding: both return only when everything is processed
+example : accepts { futures := true, limit := 1 }
+    [.accepted 1, .yielded 1, .closeCalled, .closeCalled, .finished 1, .closeReturned, .closeReturned] = true := by decide
+example : accepts { futures := true, limit := 1 }
+    [.accepted 1, .yielded 1, .closeCalled, .closeCalled, .closeReturned] = false := by decide
+-- a close cannot return more often than it was called
+example : accepts { futures := true, limit := 1 } [.closeCalled, .closeReturned, .closeReturned] = false := by decide
 
 #print axioms c06_close_sequential
 #print axioms c06_partial
